@@ -206,7 +206,8 @@ _orig_step = Interp.step_block
 def _step_block(self, p):
     fr = p.frames[-1]
     if len(p.frames) == 1 and fr.body.blocks[fr.bb][-1] == 'return;':
-        code = S(fr.env['_1'].v); p.final_vec = code.fields[('', 0)].v
+        code = S(fr.env['_1'].v)
+        if isinstance(code, Adt) and ('', 0) in code.fields and isinstance(code.fields[('', 0)].v, VecC): p.final_vec = code.fields[('', 0)].v
     return _orig_step(self, p)
 Interp.step_block = _step_block
 
